@@ -20,9 +20,11 @@
   * `PolyPixelBudgetOK pl w` — a MODEL artefact, not a condition on the code: the model drains
     `pixels()` with fuel `polyPixelBudget bb * (n + 1)` and returns the prefix seen when the fuel is
     used up; the guard says the list is shorter than the fuel, i.e. complete. (The scanline side
-    needs no such guard: `toList`'s fuel `stepBudget` is proved never to be used up.)
+    needs no such guard: `toList`'s fuel `stepBudget` is proved never to be used up.) It can be
+    replaced by C02's `PolyBBoxGuard` (`styled_polyline_paths_agree_of_bbox_guard`): the budget
+    suffices whenever everything drawn lies inside the bounding box (EG/Lemmas/C01ThickBudget.lean).
 -/
-import EG.Lemmas.C01ThickPoly
+import EG.Lemmas.C01ThickBudget
 namespace EG.C01.Polyline
 open EG EG.Tgt EG.Joins EG.C01Thick
 
@@ -136,6 +138,24 @@ theorem styled_polyline_paths_agree_partial (pl : Polyline) (w : Nat) (sc : Opti
 example : PolyRectsInRange ⟨⟨0, 0⟩, [⟨-4, 1⟩, ⟨0, -2⟩, ⟨2, -5⟩, ⟨-4, 1⟩]⟩ 2 ∧
     PolyPixelBudgetOK ⟨⟨0, 0⟩, [⟨-4, 1⟩, ⟨0, -2⟩, ⟨2, -5⟩, ⟨-4, 1⟩]⟩ 2 := by decide +kernel
 
+/-- The model's pixel budget suffices whenever no `fill_solid` rectangle of `draw()` is wider than the
+bounding box and the top row of the box is an `i32` — a consequence of C02's claim "everything drawn
+lies inside `bounding_box()`", so the budget guard is not an independent assumption. -/
+theorem polyline_pixel_budget_ok_of_widths (pl : Polyline) (w : Nat)
+    (h : ∀ d bb, drawStyled pl w = some d → untranslatedBoundingBox pl w = some bb →
+      -2147483648 ≤ bb.tl.y ∧ ∀ r ∈ polyRects d, r.size.w ≤ bb.size.w) : PolyPixelBudgetOK pl w :=
+  polyPixelBudgetOK_of_widths pl w h
+
+/-- **Styled polyline, the three paths agree, under the guard of C02's bounding-box theorem**
+(`PolyBBoxGuard`, Props/C02/JoinsBBox.lean: the top row of the box is an `i32` and no left-side
+filler line escapes the box) instead of the budget guard: there everything drawn lies inside the
+bounding box, hence the pixel budget of the model suffices. -/
+theorem styled_polyline_paths_agree_of_bbox_guard (pl : Polyline) (w : Nat) (sc : Option Color)
+    (hr : PolyRectsInRange pl w) (hg : PolyBBoxGuard pl w) : StyledPolylinePathsAgree pl w sc :=
+  styled_polyline_paths_agree_partial pl w sc hr (polyPixelBudgetOK_of_bboxGuard pl w hg)
+example : PolyRectsInRange ⟨⟨-7, -9⟩, [⟨0, 0⟩, ⟨9, 1⟩, ⟨0, 2⟩, ⟨0, 2⟩, ⟨4, -6⟩]⟩ 5 ∧
+    PolyBBoxGuard ⟨⟨-7, -9⟩, [⟨0, 0⟩, ⟨9, 1⟩, ⟨0, 2⟩, ⟨0, 2⟩, ⟨4, -6⟩]⟩ 5 := by decide +kernel
+
 /-- `draw()` of a styled polyline: draw_iter-only target = native-fill target (no guard). -/
 theorem styled_polyline_default_eq_native (pl : Polyline) (w : Nat) (sc : Option Color) (B : Rect)
     (calls : List Call) (_hc : polyStyledCalls pl w sc = some calls) :
@@ -188,6 +208,6 @@ example : (drawStyled ⟨⟨1, -2⟩, [⟨0, 0⟩, ⟨6, 3⟩, ⟨2, 7⟩]⟩ 4)
     PolyRectsInRange ⟨⟨1, -2⟩, [⟨0, 0⟩, ⟨6, 3⟩, ⟨2, 7⟩]⟩ 4 := by decide +kernel
 
 -- [V] styled polyline: that `draw()` issues the same call list whatever the target type (Rust parametricity of `draw_styled` in `D: DrawTarget`; `Translated::fill_solid` moving the rectangle by `translate`): carried by correspondence + oracle only (stream `thick.polyline`: R2 call log `draw=`, pixel sequence `px=`, class `C01:pixels-vs-draw:thick-polyline`)
--- [V] styled polyline of width > 1: that the pixel list of the model is complete (`PolyPixelBudgetOK`: fuel of the model's drain of `pixels()`; decidable, true on every op of the stream) for ALL inputs: carried by correspondence + oracle only (a truncated list would disagree with the real `px=`)
+-- [V] styled polyline of width > 1: that the pixel list of the model is complete (`PolyPixelBudgetOK`: fuel of the model's drain of `pixels()`; decidable, true on every op of the stream) for ALL inputs — proved under C02's `PolyBBoxGuard` (`styled_polyline_paths_agree_of_bbox_guard`) and whenever no rectangle is wider than the bounding box; otherwise: carried by correspondence + oracle only (a truncated list would disagree with the real `px=`; `styled_polyline_pixels_prefix`: truncation is the only way to fail)
 
 end EG.C01.Polyline
